@@ -641,6 +641,8 @@ def extra_checks(rng, tier, workdir):
     yield from _fault_checks(rng, tier)
     yield from _failed_job_checks(rng, tier)
     yield from _api_identity_checks(rng, tier)
+    yield from _nonsharing_pool_checks(rng, tier, workdir)
+    yield from _interleaving_checks(rng, tier)
     yield from _threadpool_checks(rng, tier)
 
 
@@ -1006,6 +1008,235 @@ def _api_identity_checks(rng, tier):
                     break
         if fail:
             yield (fail[0], 'task-context / partition-identity dependent transformation upstream of persist()', fail[1], case)
+
+
+# ---- (a) pools whose workers do NOT share objects with the driver -------------------------------------------------
+_COUNT = {'calls': [], 'file': None}
+
+
+def _counted_inc(x):
+    """module-level (pickled by reference); counts in-process and, for process pools, through a file"""
+    _COUNT['calls'].append(x)
+    if _COUNT['file']:
+        import os
+        fd = os.open(_COUNT['file'], os.O_WRONLY | os.O_APPEND | os.O_CREAT)
+        os.write(fd, b'x')
+        os.close(fd)
+    return x + 1
+
+
+def _times_ten(x):
+    return x * 10
+
+
+def _ncalls():
+    import os
+    if _COUNT['file']:
+        return os.path.getsize(_COUNT['file']) if os.path.exists(_COUNT['file']) else 0
+    return len(_COUNT['calls'])
+
+
+def _nonsharing_pool_checks(rng, tier, workdir):
+    """unpersist() after the partitions were computed by pool workers that do not share objects with the driver
+    (thread pool / in-order pool with pickling serializers; a real process pool): backend x which actions
+    materialised the dataset (pool actions only / pool + a local partial action) x unpersist point.  Afterwards the
+    driver's manager holds no entry of the dataset and a later action on the persisted object or a descendant
+    recomputes; before unpersist nothing is recomputed.  Oracle only."""
+    import multiprocessing
+    import os
+    import pickle
+    from concurrent.futures import ThreadPoolExecutor
+    _install()
+    backends = ['thread+pickle', 'inorder+pickle'] * (3 if tier == 'quick' else 12) + ['process'] * (2 if tier == 'quick' else 8)
+    for n_sc, backend in enumerate(backends):
+        CLOCK.t = 0
+        _COUNT['calls'] = []
+        _COUNT['file'] = os.path.join(workdir, f'calls_{n_sc}') if backend == 'process' else None
+        parts = [[rng.randint(0, 9) for _ in range(rng.choice([1, 2, 3]))] for _ in range(rng.choice([2, 3, 4]))]
+        n = sum(len(p) for p in parts)
+        tmo = rng.choice([None, 50])
+        m = CacheManager() if tmo is None else TimedCacheManager(timeout=tmo)
+        if backend == 'process':
+            pool = multiprocessing.get_context('fork').Pool(2)
+        elif backend == 'thread+pickle':
+            pool = ThreadPoolExecutor(2)
+        else:
+            pool = SubmitAllPool()
+        try:
+            # (func, rdd) and the task context travel pickled: the workers get COPIES of the dataset objects
+            import cloudpickle
+            sc = Context(pool=pool, cache_manager=m, serializer=cloudpickle.dumps, deserializer=pickle.loads)
+            p = sc._parallelize_partitions([list(x) for x in parts]).map(_counted_inc).persist()   # pylint: disable=protected-access
+            q = p.map(_times_ten)
+            want_p = [x + 1 for part in parts for x in part]
+            want_q = [x * 10 for x in want_p]
+            materialise = rng.choice(['pool-only', 'pool-only', 'pool+local'])
+            history = [rng.choice([('p', 'collect'), ('q', 'collect'), ('q', 'count')])]
+            if materialise == 'pool+local':
+                history.insert(rng.randrange(2), (rng.choice('pq'), rng.choice(['first', 'take2'])))
+            if rng.random() < 0.5:
+                history.append(rng.choice([('p', 'collect'), ('q', 'collect')]))
+            history.append(('p', 'unpersist'))
+            history += [rng.choice([('p', 'collect'), ('q', 'collect')]), rng.choice([('p', 'collect'), ('q', 'count')])]
+            case = ('nonsharing-pool', backend, tmo, parts, history)
+            fail = None
+            full = False             # every partition computed and not unpersisted since
+            for t, (which, a) in enumerate(history):
+                node = p if which == 'p' else q
+                before = _ncalls()
+                if a == 'unpersist':
+                    ret = node.unpersist()
+                    left = [k for k in m.cache_obj if k[0] == p.id()]
+                    if left:
+                        fail = ('unpersist:entry-left-behind', f'step {t}: after unpersist() the driver\'s manager still holds {left}')
+                        break
+                    if ret.collect() != want_p:
+                        fail = ('unpersist:contents-differ', f'step {t}')
+                        break
+                    full = False
+                    continue
+                want = want_p if which == 'p' else want_q
+                got = (node.collect() if a == 'collect' else node.count() if a == 'count'
+                       else [node.first()] if a == 'first' else node.take(2))
+                exp = (want if a == 'collect' else len(want) if a == 'count' else want[:1] if a == 'first' else want[:2])
+                if got != exp:
+                    fail = ('nonsharing-pool:result-differs-from-uncached', f'step {t} {which}.{a}: got {got!r}, expected {exp!r}')
+                    break
+                delta = _ncalls() - before
+                if full and delta:
+                    fail = ('nonsharing-pool:cached-partition-recomputed',
+                            f'step {t} {which}.{a}: every partition was cached, {delta} upstream calls happened')
+                    break
+                if a in ('collect', 'count'):
+                    if not full and t > 0 and history[t - 1][1] == 'unpersist' and delta != n:
+                        fail = ('unpersist:stale-entries-served',
+                                f'step {t} {which}.{a}: first full action after unpersist() made {delta} upstream calls, '
+                                f'recomputation needs {n}')
+                        break
+                    full = True
+            if fail:
+                yield (fail[0], 'pool whose workers do not share objects with the driver', fail[1], case)
+        finally:
+            if backend == 'process':
+                pool.terminate()
+                pool.join()
+            elif backend == 'thread+pickle':
+                pool.shutdown()
+    _COUNT['file'] = None
+
+
+# ---- (b) interleavings inside one job on a thread pool sharing the PersistedRDD object ---------------------------
+class FinishOrderPool:
+    """pool.map over threads: every task runs in its own thread, tasks ENTER in partition order and FINISH in the
+    given order.  The gates are events (no sleeps): task k is started once task k-1 has reached the user function
+    (or has finished); the user function of task k blocks until the task before it in the finish order is done."""
+
+    def __init__(self, finish_order):
+        import threading
+        self.order = list(finish_order)
+        n = len(self.order)
+        self.started = [threading.Event() for _ in range(n)]
+        self.done = [threading.Event() for _ in range(n)]
+        self.local = threading.local()
+
+    def reset(self):
+        for e in self.started + self.done:
+            e.clear()
+
+    def gate(self):
+        """called by the upstream user function: blocks until it is this task's turn to finish"""
+        k = getattr(self.local, 'k', None)
+        if k is None or k >= len(self.order):
+            return
+        self.started[k].set()
+        pos = self.order.index(k)
+        if pos > 0:
+            self.done[self.order[pos - 1]].wait(5)
+
+    def map(self, func, iterable):
+        import threading
+        items = list(iterable)
+        self.reset()
+        results = [None] * len(items)
+        errors = []
+
+        def run(k, item):
+            self.local.k = k
+            try:
+                results[k] = func(item)
+            except Exception as e:  # pylint: disable=broad-except
+                errors.append(e)
+            finally:
+                if k < len(self.done):
+                    self.started[k].set()
+                    self.done[k].set()
+        threads = []
+        for k, item in enumerate(items):
+            th = threading.Thread(target=run, args=(k, item))
+            th.start()
+            threads.append(th)
+            if k < len(self.started):
+                self.started[k].wait(5)
+        for th in threads:
+            th.join(30)
+        if errors:
+            raise errors[0]
+        return results
+
+
+def _interleaving_checks(rng, tier):
+    """One job on a thread pool with identity serializers (all tasks share the PersistedRDD object), tasks
+    entering compute() in partition order and finishing in every other order: after the job every partition's
+    entry is in the driver's manager and the next action calls no upstream function.  Oracle only."""
+    import itertools as it
+    import threading
+    _install()
+    orders = [list(o) for o in it.permutations(range(3))]
+    orders += [list(o) for o in (rng.sample(list(it.permutations(range(4))), 4 if tier == 'quick' else 24))]
+    for order in orders:
+        for tmo in ([None] if tier == 'quick' and len(order) == 4 else [None, 50]):
+            CLOCK.t = 0
+            nparts = len(order)
+            parts = [[100 * k + j for j in range(rng.choice([1, 2, 3]))] for k in range(nparts)]
+            n = sum(len(p) for p in parts)
+            pool = FinishOrderPool(order)
+            calls = []
+            lock = threading.Lock()
+
+            def f(x, pool=pool, calls=calls, lock=lock):
+                pool.gate()
+                with lock:
+                    calls.append(x)
+                return x + 1
+            m = CacheManager() if tmo is None else TimedCacheManager(timeout=tmo)
+            sc = Context(pool=pool, cache_manager=m)
+            p = sc._parallelize_partitions([list(x) for x in parts]).map(f).persist()   # pylint: disable=protected-access
+            q = p.map(lambda x: x * 10)
+            want_p = [x + 1 for part in parts for x in part]
+            first = rng.choice(['p', 'q'])
+            case = ('interleaving', order, tmo, parts, first)
+            r1 = (p if first == 'p' else q).collect()
+            c1 = len(calls)
+            keys = sorted(k for k in m.cache_obj if k[0] == p.id())
+            fail = None
+            if r1 != (want_p if first == 'p' else [x * 10 for x in want_p]) or c1 != n:
+                fail = ('interleaving:result-differs-from-uncached', f'first collect on {first}: {r1!r}, {c1} calls for {n} elements')
+            elif keys != [(p.id(), k) for k in range(nparts)]:
+                fail = ('interleaving:entry-missing-after-job',
+                        f'tasks finished in order {order}: the driver\'s manager holds {keys} of {nparts} partitions')
+            else:
+                r2, r3 = q.collect(), p.count()
+                if r2 != [x * 10 for x in want_p] or r3 != n:
+                    fail = ('interleaving:result-differs-from-uncached', f'later actions: {r2!r} {r3!r}')
+                elif len(calls) != c1:
+                    fail = ('interleaving:cached-partition-recomputed',
+                            f'tasks finished in order {order}: later actions made {len(calls) - c1} upstream calls')
+                else:
+                    p.unpersist()
+                    if [k for k in m.cache_obj if k[0] == p.id()]:
+                        fail = ('unpersist:entry-left-behind', f'after the job with finish order {order}')
+            if fail:
+                yield (fail[0], 'tasks of one job sharing the PersistedRDD object, finishing out of order', fail[1], case)
 
 
 def _source_iterator_check():
